@@ -55,7 +55,7 @@ def run_case(rnd, n, maxc, dur, rate=None):
     cap = 0.25 * min(maxc, tp)
     slow = int(max(0, min(30, 100 * cap * iavg / (n * davg))))
     rate = rate or rnd.choice((100, 200, 400))
-    line = 'sch_run seed=%d n=%d max=%d dur=%d tp=%d imin=%d imax=%d slow=%d thr=%d rate=%d dlo=%d dhi=%d slack=2500 tail=800' % (
+    line = 'sch_run seed=%d n=%d max=%d dur=%d tp=%d imin=%d imax=%d slow=%d thr=%d rate=%d dlo=%d dhi=%d slack=2500 tail=1000' % (
         rnd.randint(1, 10 ** 6), n, maxc, dur, tp, imin, imax, slow, rnd.choice((5, 10, 20)), rate, dlo, dhi)
     return {'lines': [line], 'tags': {'family': 'run', 'n': n, 'max': maxc}}
 
@@ -65,7 +65,7 @@ def generate(seed, tier):
     cases = []
     if tier == 'quick':
         shapes = [(5, 1), (8, 2), (20, 1), (20, 4), (40, 8), (60, 2), (100, 8), (150, 64), (300, 8), (12, 64)]
-        dur = 4500
+        dur = 6000
         nunc, k = 20, 60
     elif tier == 'search':
         shapes = [(rnd.choice((5, 10, 20, 40, 80)), rnd.choice((1, 2, 4, 8))) for _ in range(12)]
@@ -109,7 +109,7 @@ def keep_line(l):
 
 def extra_stats(cases, impl):
     st = {'check_executions': 0, 'snapshots': 0, 'next_check_records': 0, 'liveness_windows': 0, 'liveness_windows_longer_than_bound': 0,
-          'forced_requests': 0, 'max_hiccup_us': 0, 'unc_lines': 0, 'runs': []}
+          'forced_requests': 0, 'max_hiccup_us': 0, 'max_lateness_us': 0, 'unc_lines': 0, 'runs': []}
     for c in cases:
         ls = impl.get(c['id'], [])
         if c['lines'][0].startswith('sch_unc'):
@@ -128,6 +128,11 @@ def extra_stats(cases, impl):
                 if int(t[3]) - int(t[2]) > int(t[4]): wl += 1
             elif k == 'F ': f += 1
             elif k == 'Q ':
+                pass
+            if k == 'S ':
+                lt = int(l.split()[3])
+                st['max_lateness_us'] = max(st['max_lateness_us'], lt)
+            if k == 'Q ':
                 for t in l.split():
                     if t.startswith('hiccup='): hic = int(t[7:])
         st['check_executions'] += s; st['snapshots'] += p; st['next_check_records'] += nrec
